@@ -192,6 +192,7 @@ pub fn world_for(mode: Mode, rng: &mut Prng) -> (WorldCfg, AmtClass) {
         cw20_amt,
         nfts_per_user,
         sloppy20: matches!(mode, Mode::BadInput) && rng.chance(1, 2),
+        contract_trader: matches!(mode, Mode::General | Mode::Flipper | Mode::CycleHeavy | Mode::Faulty) && rng.chance(1, 4),
         lenient_bank: matches!(mode, Mode::BadInput) || rng.chance(1, 6),
         start_ns: start_s * 1_000_000_000 + nanos,
         start_height: 1000 + rng.below(1_000_000),
@@ -1174,6 +1175,7 @@ impl Gen {
                 let inner = if self.rng.chance(1, 2) { msgs::inner_add_to_bucket_cw721(bid) } else { msgs::inner_add_to_listing_cw721(lid) };
                 Op::tx(&who, &n.0, msgs::cw721_send(m, &n.1, &inner), vec![])
             }
+            11 | 12 if who == names.hostile => return None, // a contract calling the hooks with a forged sender is C18's probe, not ordinary traffic
             11 => {
                 // an externally owned account poking a receive entry point directly
                 let victim = self.user(names);
@@ -1582,6 +1584,30 @@ impl Gen {
 
     pub fn next(&mut self, sim: &Sim, o: &Obs) -> Op {
         let op = self.next_inner(sim, o);
+        // a contract account cannot sign: its messages travel through its own `forward` entry point,
+        // triggered by an externally owned account (one more dispatch in front of everything else)
+        let op = match op {
+            // (a contract calling the hooks itself, with whatever sender it likes, is the C18 probe's business:
+            // in ordinary traffic such a message is signed by the bystander instead)
+            Op::Tx { from, to, msg, funds, fail_msg, fail_query }
+                if from == sim.names.hostile && msg.as_object().map_or(false, |o| o.contains_key("receive") || o.contains_key("receive_nft")) =>
+            {
+                Op::Tx { from: BYSTANDER.to_string(), to, msg, funds, fail_msg, fail_query }
+            }
+            Op::Tx { from, to, msg, funds, fail_msg, fail_query } if from == sim.names.hostile && to != sim.names.hostile => {
+                self.count("contract_account_acts");
+                let f: Vec<(String, u128)> = funds.iter().map(|x| (x.denom.clone(), x.amount)).collect();
+                Op::Tx {
+                    from: BYSTANDER.to_string(),
+                    to: sim.names.hostile.clone(),
+                    msg: msgs::hostile_forward(&to, &msg, &f),
+                    funds: vec![],
+                    fail_msg: fail_msg.map(|i| i + 1),
+                    fail_query,
+                }
+            }
+            other => other,
+        };
         if let Some(a) = crate::spec::classify(&op, &sim.names) {
             match a.act {
                 crate::spec::Act::CreateListing { id, .. } => {
